@@ -338,7 +338,9 @@ fn grid(draws: u32, seed: u64) -> Vec<Case> {
             if n >= 1 {
                 ops.push(Op::Shorten(n));
                 let idxs: Vec<usize> = if n <= 12 { (0..=n + 1).collect() } else { vec![0, 1, 2, n / 4, n / 2 - 1, n / 2, n / 2 + 1, 3 * n / 4, n - 2, n - 1, n, n + 1] };
-                for i in idxs.into_iter().chain([usize::MAX]) {
+                // out-of-range indices incl. ones whose byte offset idx * size_of::<T>() wraps around the address space
+                let wrap = [usize::MAX, usize::MAX - 1, 1usize << 63, (1usize << 63) + 1, (1usize << 62) + 1, (1usize << 61) + 1, 1usize << 61, (1usize << 60) + 1, (1usize << 59) + 1, (1usize << 32) + 1, usize::MAX / 3 + 1, usize::MAX / 9 + 2];
+                for i in idxs.into_iter().chain(wrap) {
                     ops.push(Op::Remove(n, i));
                     ops.push(Op::SwapRemove(n, i));
                 }
@@ -382,7 +384,7 @@ pub fn main() {
         Report {
             prop: PROP,
             level: "exploration",
-            rule: "type-level instantiation of every N in 0..=12 with every K <= N (split: owned, & and &mut forms), every (N, M) with N + M <= 12 (concat), 25 + 21 boundary pairs up to 4096, append/prepend/pop_back/pop_front on 30 lengths up to 10000, remove/swap_remove with every index 0..=N+1 (N <= 12; a spread incl. 0, 1, N/4, N/2, N-1, N, N+1 beyond) and usize::MAX; element kinds of size 0, 1, 8, 24 and 72 bytes, 32-byte-aligned, drop-tracked and zero-sized tracked; seeded values. \
+            rule: "type-level instantiation of every N in 0..=12 with every K <= N (split: owned, & and &mut forms), every (N, M) with N + M <= 12 (concat), 25 + 21 boundary pairs up to 4096, append/prepend/pop_back/pop_front on 30 lengths up to 10000, remove/swap_remove with every index 0..=N+1 (N <= 12; a spread incl. 0, 1, N/4, N/2, N-1, N, N+1 beyond), usize::MAX and a dozen huge indices whose byte offset would wrap (2^59+1 .. 2^63+1, MAX/3+1, MAX/9+2); element kinds of size 0, 1, 8, 24 and 72 bytes, 32-byte-aligned, drop-tracked and zero-sized tracked; seeded values. \
                    Oracle: a Vec with the same contents (push, insert(0), pop, remove(0), split_at, extend, remove, swap_remove) - elements, order, identities of tracked elements and the removed value; out-of-range indices must panic with every element dropped exactly once; by-reference split halves must be at byte offsets 0 and K*size_of::<T>() of the source with lengths K and N-K, and writes through the &mut halves must land in the source. \
                    non-trivial = a zero-length operand / edge pivot, an out-of-range index, or a zero-sized or drop-tracked element kind; distinct = distinct (kind, operation instance, values)",
             exhaustive: false,
